@@ -4,8 +4,9 @@
    Terms are numbers; 1 = rdf:first, 2 = rdf:rest, 3 = rdf:nil.
    Proved here: isValidList terminates on every graph (the fuel |G|+1 of the definition is never used up), a list it
    accepts is a proper collection whose cells carry exactly their rdf:first / rdf:rest triples, doList writes exactly the
-   members of that collection and stops - provided rdf:nil has no rdf:rest triple; without that proviso doList can run
-   forever (finding F15r, witness below).  The repaired doList (while l_ != rdf:nil, repair 08) needs no proviso. *)
+   members of that collection and stops (the loop "while l_ != rdf:nil" of fix commit 0dee69e9).  The loop before
+   that commit ("while l_:", kept as do_list_old) could run forever when rdf:nil itself has an rdf:rest triple (finding
+   F15r, historical witness below). *)
 From Coq Require Import List NArith Bool Lia PeanoNat.
 Import ListNotations.
 Open Scope N_scope.
@@ -51,15 +52,15 @@ Definition is_valid_list (g : graph) (ser : list N) (head : N) : option bool :=
   | Some _ => walk g ser head (S (length g)) head []
   end.
 
-(* doList as it is in the tree: while l_ (truthiness; falsy = the terms whose Python truth value is false):
+(* doList BEFORE fix commit 0dee69e9: while l_ (truthiness; falsy = the terms whose Python truth value is false):
    -> the (cell, item) pairs written, in order; None = out of fuel *)
-Fixpoint do_list (g : graph) (falsy : list N) (fuel : nat) (l : N) : option (list (N * N)) :=
+Fixpoint do_list_old (g : graph) (falsy : list N) (fuel : nat) (l : N) : option (list (N * N)) :=
   if memN l falsy then Some [] else
   match fuel with
   | O => None
   | S k =>
     let rest := match value g l REST with
-                | Some r => do_list g falsy k r
+                | Some r => do_list_old g falsy k r
                 | None => Some []                    (* l_ = None ends the loop *)
                 end in
     match value g l FIRST, rest with
@@ -69,14 +70,14 @@ Fixpoint do_list (g : graph) (falsy : list N) (fuel : nat) (l : N) : option (lis
     end
   end.
 
-(* doList with repair 08: while l_ != rdf:nil *)
-Fixpoint do_list_fixed (g : graph) (fuel : nat) (l : N) : option (list (N * N)) :=
+(* doList as it is in the tree (fix commit 0dee69e9): while l_ != rdf:nil *)
+Fixpoint do_list (g : graph) (fuel : nat) (l : N) : option (list (N * N)) :=
   if l =? NIL then Some [] else
   match fuel with
   | O => None
   | S k =>
     let rest := match value g l REST with
-                | Some r => do_list_fixed g k r
+                | Some r => do_list g k r
                 | None => Some []
                 end in
     match value g l FIRST, rest with
@@ -92,7 +93,7 @@ Definition tl_obs := (option bool * option (list (N * N)))%type.   (* isValidLis
 Definition tl_model (c : tl_case) : tl_obs :=
   let v := is_valid_list (tg c) (tser c) (thead c) in
   (v, match v with
-      | Some true => do_list (tg c) (tfalsy c) (2 * length (tg c) + 2) (thead c)
+      | Some true => do_list (tg c) (S (length (tg c))) (thead c)
       | _ => Some []
       end).
 Definition pair_list_eqb (a b : list (N * N)) : bool :=
@@ -100,9 +101,11 @@ Definition pair_list_eqb (a b : list (N * N)) : bool :=
 Definition tl_obs_eqb (a b : tl_obs) : bool :=
   match fst a, fst b with Some x, Some y => Bool.eqb x y | None, None => true | _, _ => false end &&
   match snd a, snd b with Some x, Some y => pair_list_eqb x y | None, None => true | _, _ => false end.
-(* F15r: rdf:nil has an rdf:rest (or rdf:first) triple *)
-Definition tl_kf (c : tl_case) : N :=
+(* historical trigger of F15r (rdf:nil has an rdf:rest or rdf:first triple); the finding is repaired, the suite has
+   no trigger any more *)
+Definition tl_kf_old (c : tl_case) : N :=
   match value (tg c) NIL REST, value (tg c) NIL FIRST with None, None => 0 | _, _ => 1 end.
+Definition tl_kf (c : tl_case) : N := 0.
 (* the property on this level: both loops end *)
 Definition tl_spec (c : tl_case) (o : tl_obs) : bool :=
   match fst o, snd o with Some _, Some _ => true | _, _ => false end.
@@ -215,8 +218,8 @@ Proof.
 Qed.
 
 (* ------------------------------------------------------------ doList *)
-Lemma do_list_fixed_ok : forall g cells l fuel, chain_to_nil g l cells -> (length cells <= fuel)%nat ->
-  exists items, do_list_fixed g fuel l = Some (combine cells items) /\ length items = length cells /\
+Lemma do_list_ok : forall g cells l fuel, chain_to_nil g l cells -> (length cells <= fuel)%nat ->
+  exists items, do_list g fuel l = Some (combine cells items) /\ length items = length cells /\
     Forall2 (fun c i => value g c FIRST = Some i) cells items.
 Proof.
   intros g cells l fuel H. revert fuel. induction H as [|l r cells Hne Hok Hr Hch IH]; intros fuel Hf.
@@ -224,27 +227,27 @@ Proof.
   - destruct fuel as [|k]; [cbn [length] in Hf; lia|].
     destruct (IH k) as (items & Hd & Hl & Hall); [cbn [length] in Hf; lia|].
     destruct (cell_ok_shape g l Hok) as (f & r' & _ & Hf1 & Hr'). 
-    exists (f :: items). cbn [do_list_fixed]. apply N.eqb_neq in Hne. rewrite Hne, Hr, Hd, Hf1.
+    exists (f :: items). cbn [do_list]. apply N.eqb_neq in Hne. rewrite Hne, Hr, Hd, Hf1.
     split; [reflexivity|]. split; [cbn [length]; now rewrite Hl|]. now constructor.
 Qed.
 
 (* the loop in the tree ("while l_:") does the same provided rdf:nil has neither rdf:first nor rdf:rest and no
    cell is a term whose truth value is false *)
-Lemma do_list_ok : forall g falsy cells l fuel, chain_to_nil g l cells ->
+Lemma do_list_old_ok : forall g falsy cells l fuel, chain_to_nil g l cells ->
   value g NIL REST = None -> value g NIL FIRST = None -> memN NIL falsy = false ->
   (forall c, In c cells -> memN c falsy = false) -> (length cells < fuel)%nat ->
-  exists items, do_list g falsy fuel l = Some (combine cells items) /\ length items = length cells /\
+  exists items, do_list_old g falsy fuel l = Some (combine cells items) /\ length items = length cells /\
     Forall2 (fun c i => value g c FIRST = Some i) cells items.
 Proof.
   intros g falsy cells l fuel H Hnr Hnf Hnt. revert fuel.
   induction H as [|l r cells Hne Hok Hr Hch IH]; intros fuel Hfalsy Hf.
   - exists []. split; [|split; [reflexivity|constructor]].
-    destruct fuel as [|k]; [cbn [length] in Hf; lia|]. cbn [do_list]. now rewrite Hnt, Hnr, Hnf.
+    destruct fuel as [|k]; [cbn [length] in Hf; lia|]. cbn [do_list_old]. now rewrite Hnt, Hnr, Hnf.
   - destruct fuel as [|k]; [cbn [length] in Hf; lia|].
     destruct (IH k) as (items & Hd & Hl & Hall);
       [intros c Hc; apply Hfalsy; now right|cbn [length] in Hf; lia|].
     destruct (cell_ok_shape g l Hok) as (f & r' & _ & Hf1 & Hr').
-    exists (f :: items). cbn [do_list]. rewrite (Hfalsy l (or_introl eq_refl)), Hr, Hd, Hf1.
+    exists (f :: items). cbn [do_list_old]. rewrite (Hfalsy l (or_introl eq_refl)), Hr, Hd, Hf1.
     split; [reflexivity|]. split; [cbn [length]; now rewrite Hl|]. now constructor.
 Qed.
 
@@ -256,56 +259,44 @@ Proof.
   - intros x [<-|Hx]; [now apply cell_ok_subject|now apply IH].
 Qed.
 
-(* the suite's statement: both loops end (no trigger: rdf:nil has no rdf:first / rdf:rest) *)
-Definition tl_wf (c : tl_case) : bool :=
-  negb (memN NIL (tfalsy c)) && forallb (fun t => negb (memN (fst (fst t)) (tfalsy c))) (tg c).
-
-Theorem tl_spec_model : forall c, tl_wf c = true -> tl_kf c = 0 -> tl_spec c (tl_model c) = true.
+(* the suite's statement: both loops end, on every graph *)
+Theorem tl_spec_model : forall c, tl_spec c (tl_model c) = true.
 Proof.
-  intros c Hwf Hk. unfold tl_spec, tl_model.
+  intros c. unfold tl_spec, tl_model.
   pose proof (is_valid_list_terminates (tg c) (tser c) (thead c)) as Ht.
   destruct (is_valid_list (tg c) (tser c) (thead c)) as [[|]|] eqn:Hv; try reflexivity; [|contradiction].
   cbn [fst snd].
   destruct (is_valid_list_sound _ _ _ Hv) as (cells & Hch & Hnd & _).
-  unfold tl_kf in Hk. destruct (value (tg c) NIL REST) eqn:Hr; [discriminate|].
-  destruct (value (tg c) NIL FIRST) eqn:Hf; [discriminate|].
-  unfold tl_wf in Hwf. apply andb_true_iff in Hwf as [Hn Hs]. apply negb_true_iff in Hn.
-  destruct (do_list_ok (tg c) (tfalsy c) cells (thead c) (2 * length (tg c) + 2) Hch Hr Hf Hn) as (items & Hd & _).
-  - intros x Hx. rewrite forallb_forall in Hs.
-    assert (Hin : In x (subjects (tg c))).
-    { clear -Hch Hx. induction Hch as [|l r cells Hne Hok Hr Hch IH]; [destruct Hx|].
-      destruct Hx as [<-|Hx]; [now apply cell_ok_subject|now apply IH]. }
-    unfold subjects in Hin. apply in_map_iff in Hin as (t & <- & Ht'). specialize (Hs t Ht').
-    now apply negb_true_iff in Hs.
+  destruct (do_list_ok (tg c) cells (thead c) (S (length (tg c))) Hch) as (items & Hd & _).
   - pose proof (chain_length _ _ _ Hch Hnd). lia.
   - now rewrite Hd.
 Qed.
 
-(* ------------------------------------------------------------ F15r: doList can run forever *)
+(* ------------------------------------------------------------ F15r (historical): the old doList could run forever *)
 Definition w_f15r : graph := [(3, 1, 10); (3, 2, 20); (20, 1, 11); (20, 2, 3)].
 
-Lemma do_list_S : forall g falsy k l,
-  do_list g falsy (S k) l =
+Lemma do_list_old_S : forall g falsy k l,
+  do_list_old g falsy (S k) l =
   if memN l falsy then Some [] else
-    match value g l FIRST, match value g l REST with Some r => do_list g falsy k r | None => Some [] end with
+    match value g l FIRST, match value g l REST with Some r => do_list_old g falsy k r | None => Some [] end with
     | Some item, Some tl => Some ((l, item) :: tl)
     | None, Some tl => Some tl
     | _, None => None
     end.
 Proof. reflexivity. Qed.
 
-Lemma f15r_do_list_never_ends : forall fuel, do_list w_f15r [] fuel 20 = None /\ do_list w_f15r [] fuel 3 = None.
+Lemma f15r_do_list_old_never_ends : forall fuel, do_list_old w_f15r [] fuel 20 = None /\ do_list_old w_f15r [] fuel 3 = None.
 Proof.
   induction fuel as [|k [IH1 IH2]]; [split; reflexivity|].
   split.
-  - rewrite do_list_S. change (value w_f15r 20 REST) with (Some 3). cbv iota beta. rewrite IH2. reflexivity.
-  - rewrite do_list_S. change (value w_f15r 3 REST) with (Some 20). cbv iota beta. rewrite IH1. reflexivity.
+  - rewrite do_list_old_S. change (value w_f15r 20 REST) with (Some 3). cbv iota beta. rewrite IH2. reflexivity.
+  - rewrite do_list_old_S. change (value w_f15r 3 REST) with (Some 20). cbv iota beta. rewrite IH1. reflexivity.
 Qed.
 
 Theorem f15r_refuted :
-  is_valid_list w_f15r [] 20 = Some true /\ (forall fuel, do_list w_f15r [] fuel 20 = None) /\
-  tl_kf {| tg := w_f15r; tser := []; tfalsy := []; thead := 20 |} = 1 /\
-  exists r, do_list_fixed w_f15r 5 20 = Some r.
+  is_valid_list w_f15r [] 20 = Some true /\ (forall fuel, do_list_old w_f15r [] fuel 20 = None) /\
+  tl_kf_old {| tg := w_f15r; tser := []; tfalsy := []; thead := 20 |} = 1 /\
+  exists r, do_list w_f15r 5 20 = Some r.
 Proof.
-  split; [reflexivity|]. split; [intros fuel; apply f15r_do_list_never_ends|]. split; [reflexivity|]. eexists. reflexivity.
+  split; [reflexivity|]. split; [intros fuel; apply f15r_do_list_old_never_ends|]. split; [reflexivity|]. eexists. reflexivity.
 Qed.
